@@ -63,6 +63,15 @@ def oracle(o):
         if a["e"] >= 0 and b["s"] - a["e"] < sp["interval_ms"] * 1000 - 300:
             why.append("attempts separated by %d us, RetryInterval is %d ms" % (b["s"] - a["e"], sp["interval_ms"]))
             break
+    if o["via"] == "scheduler" and o["cancel"] == "none":
+        n2 = len(o.get("attempts2") or [])
+        if n2 != full:
+            why.append("the job's second fire time got %d attempts, the first %d, configured 1 + min(MaxRetries, failures) = %d" % (n2, n, full))
+        a2 = o.get("attempts2") or []
+        for a, b in zip(a2, a2[1:]):
+            if a["e"] >= 0 and b["s"] - a["e"] < sp["interval_ms"] * 1000 - 300:
+                why.append("second fire: attempts separated by %d us, RetryInterval is %d ms" % (b["s"] - a["e"], sp["interval_ms"]))
+                break
     if o["via"] == "scheduler":
         if not o["wait_returned"]:
             why.append("Wait did not return after Stop")
